@@ -39,7 +39,12 @@ type EventPublisher struct {
 	// publishCh is used to send messages from an active txn to a goroutine which
 	// publishes events, so that publishing can happen asynchronously from
 	// the Commit call in the FSM hot path.
-	publishCh chan []Event
+	publishCh chan publishUpdate
+
+	// generation counts the calls to RefreshAllTopics (a snapshot restore). It
+	// is guarded by lock. A queued batch carries the generation it was
+	// published under and is dropped if a restore happened in between.
+	generation uint64
 
 	snapshotHandlers SnapshotHandlers
 
@@ -50,6 +55,12 @@ type EventPublisher struct {
 
 // topicSubject is used as a map key when accessing topic buffers and cached
 // snapshots.
+// publishUpdate is a batch of events waiting to be appended to the topic buffers.
+type publishUpdate struct {
+	generation uint64
+	events     []Event
+}
+
 type topicSubject struct {
 	Topic   string
 	Subject string
@@ -104,7 +115,7 @@ func NewEventPublisher(snapCacheTTL time.Duration) *EventPublisher {
 		snapCacheTTL: snapCacheTTL,
 		topicBuffers: make(map[topicSubject]*topicBuffer),
 		snapCache:    make(map[topicSubject]*eventSnapshot),
-		publishCh:    make(chan []Event, 64),
+		publishCh:    make(chan publishUpdate, 64),
 		subscriptions: &subscriptions{
 			byToken: make(map[string]map[*SubscribeRequest]*Subscription),
 		},
@@ -148,9 +159,18 @@ func (e *EventPublisher) RefreshAllTopics() {
 	topics := make(map[Topic]struct{})
 
 	e.lock.Lock()
+	// Everything published so far describes the state that is being replaced.
+	// Batches still waiting in the queue must not be delivered on top of
+	// snapshots of the restored state, and neither must events that already
+	// sit in the topic buffers (a subscriber that has not unsubscribed yet
+	// keeps its buffer alive): start over with fresh buffers.
+	e.generation++
 	for topic := range e.snapshotHandlers {
 		topics[topic] = struct{}{}
 		e.forceEvictByTopicLocked(topic)
+	}
+	for key := range e.topicBuffers {
+		delete(e.topicBuffers, key)
 	}
 	e.lock.Unlock()
 
@@ -193,7 +213,11 @@ func (e *EventPublisher) Publish(events []Event) {
 		}
 	}
 
-	e.publishCh <- events
+	e.lock.RLock()
+	generation := e.generation
+	e.lock.RUnlock()
+
+	e.publishCh <- publishUpdate{generation: generation, events: events}
 }
 
 // Run the event publisher until ctx is cancelled. Run should be called from a
@@ -205,9 +229,21 @@ func (e *EventPublisher) Run(ctx context.Context) {
 			e.subscriptions.closeAll()
 			return
 		case update := <-e.publishCh:
-			e.publishEvent(update)
+			e.handleUpdate(update)
 		}
 	}
+}
+
+// handleUpdate appends a queued batch to the topic buffers, unless the state it
+// was committed against has been replaced by a restore since it was queued.
+func (e *EventPublisher) handleUpdate(update publishUpdate) {
+	e.lock.RLock()
+	current := e.generation
+	e.lock.RUnlock()
+	if update.generation != current {
+		return
+	}
+	e.publishEvent(update.events)
 }
 
 // publishEvent appends the events to any applicable topic buffers. It handles
@@ -318,7 +354,8 @@ func (e *EventPublisher) Subscribe(req *SubscribeRequest) (*Subscription, error)
 
 		topicBuf.refs--
 
-		if topicBuf.refs == 0 {
+		// (after a restore the buffer may already have been replaced by a fresh one)
+		if topicBuf.refs == 0 && e.topicBuffers[req.topicSubject()] == topicBuf {
 			delete(e.topicBuffers, req.topicSubject())
 
 			// Evict cached snapshot too because the topic buffer will have been spliced
